@@ -153,6 +153,7 @@ def applicable_faults(case: Dict[str, Any]) -> Dict[str, List[Any]]:
     f["config_duplicate_list_element/exchanges"] = [None]
     for table in ("in", "out", "intra"):
         f[f"config_duplicate_column_number/{table}"] = [None]
+        f[f"config_duplicate_option/{table}"] = [None]  # the same field listed twice in one header section
         f[f"config_negative_column/{table}"] = [None]
         f[f"config_non_integer_column/{table}"] = [None]
         f[f"config_unknown_field/{table}"] = [None]
@@ -405,6 +406,12 @@ def build(case: Dict[str, Any], folder: str, with_fault: bool = True) -> Tuple[s
         text = "\n".join(line for line in text.split("\n") if not line.startswith(f"{target} ="))
     elif head == "config_empty_field":
         text = "\n".join((f"{target} = " + ["", "   ", ","][variant % 3]) if line.startswith(f"{target} =") else line for line in text.split("\n"))
+    elif head == "config_duplicate_option":
+        lines = text.split("\n")
+        start = lines.index(f"[{target}_header]")
+        pick = start + 1 + variant % 3
+        lines.insert(start + 4, lines[pick] if variant % 2 == 0 else lines[pick].split("=")[0] + "= 29")
+        text = "\n".join(lines)
     elif head == "config_duplicate_list_element":
         text = text.replace(f"exchanges = {', '.join(exchanges)}", f"exchanges = {', '.join(exchanges + [exchanges[0]])}")
     elif head in ("config_duplicate_column_number", "config_negative_column", "config_non_integer_column", "config_unknown_field", "config_column_beyond_sheet"):
